@@ -194,6 +194,8 @@ def table_check(out):
 
 
 def run(ctx, out):
+    import families, random as _random
+    out.evaluations += families.noninit_tuple_family(out, PROP, _random.Random(ctx['seed']))
     out.rule = ('(1) EXHAUSTIVE name derivation: 3 field names x 12 field-option sets (rename / aliases / in_names / out_name and the refused '
                 'combinations) x 4 class input-style lists x 6 output styles = 864 cells, FieldSpec.make_field compared with the Coq model '
                 'inside coqc and with an independent reading of the documentation; (2) EXHAUSTIVE decision table on a 3-field class family '
